@@ -126,6 +126,33 @@ class Run:
                 "mode": self.mode, "grouped": self.grouped}
 
 
+# how a synthetic decoder builds and handles its result objects before it returns them (all of it is the decoder's business):
+#  "touch"     reads every read-only attribute / method of each result first (original, repr, iteration, flatten, ==) as a tracing decoder would
+#  "late"      constructs an empty Node and assigns type, value, label, span and children afterwards
+#  "bytearray" reports values as bytearray objects instead of bytes
+HOWS = ("touch", "late", "bytearray")
+
+
+def make_node(spec, how):
+    t, v, o, a, b, kids = spec
+    if how == "late":
+        n = Node("", b"?", "", 0, 0)
+        n.type, n.value, n.obfuscation = t, v, o
+        n.end, n.start = b, a
+        ch = [make_node(k, how) for k in kids]
+        for c in ch:
+            c.parent = n
+        n.children = ch
+        return n
+    if how == "bytearray":
+        return Node(t, bytearray(v), o, a, b, children=[make_node(k, how) for k in kids])
+    n = trees.mknode(spec)
+    if how == "touch":
+        for x in [n] + trees.walk(n):
+            _ = (x.original, repr(x), list(x), x == x, x.flatten(), x.parent, len(x.children))
+    return n
+
+
 def registries(T: bytes, hits, mode: str, grouped: bool):
     """(model registry, impl registry) for a configuration.  hits: list of (a, b, kind)."""
     specs = [spec(T, a, b, k) for (a, b, k) in hits]
@@ -134,8 +161,10 @@ def registries(T: bytes, hits, mode: str, grouped: bool):
     def model_dec(group):
         return lambda value: list(group) if value == T else []
 
+    how = grouped if grouped in HOWS else None
+
     def impl_dec(group):
-        return lambda value: [trees.mknode(s) for s in group] if value == T else []
+        return lambda value: [make_node(s, how) for s in group] if value == T else []
 
     mreg = [model_dec(g) for g in groups] + [lambda value: mode_specs(mode, T, value)]
     if grouped == "shared":
@@ -155,7 +184,7 @@ def registries(T: bytes, hits, mode: str, grouped: bool):
         ireg = [cache.setdefault(repr(g), Dec(g)).find for g in groups]
     else:
         ireg = [impl_dec(g) for g in groups]
-    ireg = ireg + [lambda value: [trees.mknode(s) for s in mode_specs(mode, T, value)]]
+    ireg = ireg + [lambda value: [make_node(s, how) for s in mode_specs(mode, T, value)]]
     return mreg, ireg
 
 
